@@ -26,8 +26,10 @@ RULE = ('pyipmi.ipmitool.main() is run in-process (sys.argv, stdout/stderr, pyip
         'literals (decimal and hex MUST be read, whatever int() the entry uses; the other forms are compared with the model '
         'of that int()), each also run as the corresponding direct API call on a fresh identical BMC (request sequences with '
         'their responder LUN and target, outcome class and exit status compared), on seven stub personalities - full (every SDR type of IPMI '
-        'ch. 43, non-linear sensors with raw 0 / unused thresholds, sensors flagged reading/state unavailable, a channel '
-        'without link, an HPM.1 upgrade agent that takes a whole small image), minimal (C1h), plain, sdrtypes, nonlinear, '
+        'ch. 43, sensors with a formula linearisation and raw 0 / unused thresholds, really non-linear sensors - '
+        'linearisation 70h and 7Fh, table 43-1 byte 24, with ordinary readings, followed by a linear one - sensors flagged '
+        'reading/state unavailable, a channel without link, an HPM.1 upgrade agent with two components that takes a whole '
+        'small image; the description string of the second component contains a backslash), minimal (C1h), plain, sdrtypes, nonlinear, '
         'unavailable, luns (full and compact sensor records on sensor owner LUN 0, 1 and 3 - table 43-1 byte 7 [1:0]; two '
         'sensors share their number on different LUNs with different readings, one number exists on LUN 3 only; Get Sensor '
         'Reading answered per (LUN, number), CBh otherwise; `sdr show` of every such record, `sdr showall`, `sdr list`; the '
@@ -36,7 +38,10 @@ RULE = ('pyipmi.ipmitool.main() is run in-process (sys.argv, stdout/stderr, pyip
         'tear-down (alone and after a failed command): a completion code, IpmiTimeoutError, every other exception class of '
         'pyipmi/errors.py and socket.timeout, as the library\'s own interfaces raise them; the end of main (message, '
         'status / escaping exception) is compared with the Lean model of the except clauses and the try/finally, the Python '
-        'error of a printing handler with the Lean model of the handlers; (2) option vectors: all options in -c v / -cv / grouped-flag '
+        'error of a printing handler with the Lean model of the handlers (an exception class of pyipmi.errors that leaves a '
+        'handler on a fault-free run while the API call completes - DecodingError of a non-linear sensor - is such an error: '
+        'C20:python-error:<entry>:<Class>, whatever main() prints for it); the model of SdrFullSensorRecord.lin is compared '
+        'with the library on all 256 values of the linearisation byte x the sign of x; (2) option vectors: all options in -c v / -cv / grouped-flag '
         'forms, repeated, any order, routing literals, interface options, compared field by field with the Lean model of main '
         'and with the values that were generated; (3) raw requests of arbitrary LUN / NetFn / bytes incl. out-of-range and '
         'malformed words (request seen by the BMC, stdout, exit); (4) lookup vectors (prefixes, unknown words, words containing '
@@ -88,7 +93,22 @@ ASSUMPTIONS = [
     'LUN is read - in either direction - is reported (signature C20:requests:<entry>:lun).  -L accepts user / operator / administrator only '
     '(callback / oem -> KeyError: not generated); Aardvark pullups=off / power=off are parsed to False and handed to the '
     'interface as given (that aardvark.py treats False as "not given" is outside ipmitool.py)',
-    'the as-shipped counter-example theorems are about a frozen copy of the pinned table (Lemmas/CliAsShipped.lean)',
+    'the as-shipped counter-example theorems are about a frozen copy of the pinned table (Lemmas/CliAsShipped.lean); '
+    'nonlinear_afterRound1_counterexample about a frozen copy of the handler facts generated from commit 9e975ea',
+    'a non-linear sensor (linearisation 70h..7Fh) has no formula: what the tool must do for it is "not end the listing" '
+    '(na for reading and thresholds is accepted; fetching Get Sensor Reading Factors is not demanded - the library '
+    'has no such call); reserved linearisation codes 0Ch..6Fh are not put into the stub (not conforming), the handler '
+    'theorem and the lin tie cover them all the same',
+    'second audit round, judged outside the property (DESIGN 9.9): (a) `hpm install` sends the image\'s inaccessibility '
+    'time-out as the rollback-override byte of Activate Firmware and waits 1 s (Hpm.activation_stage passes positional '
+    'arguments in the wrong places): the tool sends exactly what the API call install_component_from_file sends - which '
+    'is what this property compares - and no property covers the activation stage; the stub accepts any override byte; '
+    '(b) `picmg channel status` without its argument ends with IndexError: missing arguments are observations '
+    '(obs:no-args:*); (c) `-o cipher=0x11` (ipmitool back-end) ends with ValueError: the VALUES of interface options are '
+    'strings handed to the interface\'s constructor, not "numeric arguments" of a command - the check compares the '
+    'parsed option dictionary with the given strings only',
+    '`hpm capabilities` on a component description with a backslash is reported here (C20:python-error:hpm '
+    'capabilities:UnicodeDecodeError) but is a defect of pyipmi/hpm.py that C07 owns (fix C07-11)',
     '`raw`: a completion code in the reply is printed as data (it is the first reply byte) and the tool returns 0 - the '
     'check sides with the clause "prints exactly the reply bytes in hex" against the clause "BMC error codes ... end the '
     'tool with a message and a non-zero exit status" (the expected output of a faulted `raw` run is the stub\'s reply, '
@@ -141,6 +161,7 @@ class Obs(object):
         self.bmc = None
         self.py_error = False       # ended with an exception that is not one of pyipmi.errors (nor SystemExit)
         self.failure = None         # ended with a failure class (pyipmi.errors.* / socket.timeout): classify() of it
+        self.handler_exc = None     # the exception that left the table entry's handler: (Class, text, classify() kind)
 
     @property
     def requests(self):
@@ -229,7 +250,11 @@ def run_cli(argv, profile='full', faults=None):
                 'session': None if s.rmcp_host is None else
                 (s.rmcp_host, s.rmcp_port, s.auth_username, s.auth_password, s.priv_level),
             }
-            return fn(ipmi, args)
+            try:
+                return fn(ipmi, args)
+            except Exception as e:  # noqa - observed, not handled: main() sees it as it would without the wrapper
+                o.handler_exc = (type(e).__name__, str(e)[:200], classify(e)[0])
+                raise
         return handler
 
     real_ci = pyipmi.interfaces.create_interface
@@ -446,8 +471,8 @@ def entry_specs():
         'sensor rearm': ([[('n', 0x30)], [('n', 0x31)], [('n', 7)]], lambda v: lambda i: i.rearm_sensor_events(v[0])),
         'sdr list': ([[]], lambda v: _sdr_list),
         'sdr raw': ([[('n', 1)], [('n', 2)], [('n', 77)], [('n', 5)], [('n', 0x20)]], lambda v: lambda i: i.get_device_sdr(v[0])),
-        'sdr show': ([[('n', x)] for x in (1, 2, 77, 3, 4, 6, 9, 11, 12, 0x20, 0x21, 0x22, 0x23, 0x25, 0x30, 0x31,
-                                           0x40, 0x41, 0x42, 0x43, 0x44, 0x45)],
+        'sdr show': ([[('n', x)] for x in (1, 2, 77, 3, 4, 6, 9, 11, 12, 0x20, 0x21, 0x22, 0x23, 0x25, 0x27, 0x28, 0x29,
+                                           0x30, 0x31, 0x40, 0x41, 0x42, 0x43, 0x44, 0x45)],
                      lambda v: lambda i: _sdr_show(i, v[0])),
         'sdr showall': ([[]], lambda v: _sdr_showall),
         'fru print': ([[], [('n', 0)], [('n', 0), ('w', 'all')], [('n', 1)]],
@@ -651,6 +676,22 @@ def judge_entry_run(ctx, name, idx, argv, api_fn, profile, faults, unresolved_na
                     '%r: BMC error %s at request %d is swallowed: the tool carries on and ends with %s' % (
                         name, a_out, len(a_reqs) - 1, o.exit), case,
                     expected='non-zero exit status and a message', observed={'exit': o.exit, 'stdout_tail': o.stdout[-120:]})
+        return o
+    # ---- property clause 1 again: ended by an exception although nothing failed at the BMC
+    if not faults and a_out[0] == 'ok' and a_close is None and o.handler_exc is not None \
+            and o.handler_exc[2] in ('liberr', 'raise') and o.exit[0] in ('exit', 'raise'):
+        # no fault injected, the corresponding API call completes on an identical BMC (no error code, no time-out
+        # anywhere) - and the table entry is ended by an exception raised on the way to the screen.  That main()
+        # turns a class of pyipmi.errors into "Command failed" and status 1 does not make the entry "complete":
+        # nothing failed at the BMC, and the requests that were still to come are never sent.
+        ctx.violate('C20:python-error:%s:%s' % (name, o.handler_exc[0]),
+                    'entry %r is ended by %s (%s) against a conforming BMC (%s profile, no fault injected, every '
+                    'request of the corresponding API call answered) after %d of %d request(s); the tool ends with '
+                    '%s, last line %r' % (name, o.handler_exc[0], o.handler_exc[1], profile, len(o.requests),
+                                          len(a_reqs), o.exit, _last_line(o)[:100]), case,
+                    expected='completes: exit status 0, the %d requests of the API call' % len(a_reqs),
+                    observed={'exit': o.exit, 'handler_exception': list(o.handler_exc[:2]),
+                              'requests_sent': len(o.requests), 'stdout_tail': o.stdout[-160:]})
         return o
     if o.requests != a_reqs or [t for t in o.targets] != [t for t in a_tgts]:
         sig, what = 'C20:requests:%s' % name, '%r issues other requests than the corresponding API call' % name
@@ -894,7 +935,7 @@ def tie_sensor_reads(ctx, name, vals, argv, profile, o):
         return
     if o.exit[0] == 'raise' and o.exit[1] == 'ValueError' and not o.requests:
         return
-    if o.exit[0] == 'raise' and o.py_error:
+    if (o.exit[0] == 'raise' and o.py_error) or (o.handler_exc is not None and o.handler_exc[2] == 'liberr'):
         return          # reported / tied by the Python-error oracle; the request sequence is cut short
     if not literal_verdict(ctx, o.launch['entry'], o.launch['args'])[0]:
         return          # the model's int() rejects the record id (`sdr show` prints an empty line): tied by 'literal'
@@ -976,10 +1017,48 @@ def tie_python_error(ctx, name, vals, argv, profile, o):
         return
     want = predict_python_error(ctx, name, vals, profile)
     got = o.exit[1] if (o.exit[0] == 'raise' and o.py_error) else None
+    if got is None and o.handler_exc is not None and o.handler_exc[2] == 'liberr':
+        # a class of pyipmi.errors that is not a completion code / time-out left the handler (DecodingError of
+        # `lin`); main() prints "Command failed" for it
+        got = o.handler_exc[0]
     ctx.count('handler-model:%s' % (want or 'completes'))
     if want != got:
         ctx.disagree('handler', {'kind': 'entry', 'argv': argv, 'profile': profile, 'entry': name, 'faults': []},
                      str(want), str(got))
+
+
+def _lin_tie(ctx):
+    """tie: the Lean model of `SdrFullSensorRecord.lin` (Model.linRaises) vs the library on EVERY value of the
+    linearisation byte (table 43-1 byte 24; bit 7 reserved) x the sign of x.  The record is built from the table
+    (stub.sdr_full_lin: 2's complement readings, M = 1, B = 0, exponents 0), the byte patched in, decoded by the
+    library, and one raw value of each sign converted.  Also: the specification's view of the code
+    (Spec.linClass / hasValue through the driver) vs the table's text, written out here once more."""
+    import pyipmi.sdr
+    drv = ctx.driver('drv_c20')
+    raws = (('neg', 0xfe), ('zero', 0x00), ('pos', 0x02))
+    qs = ['linraises %d %s' % (b, sg) for b in range(256) for sg, _ in raws]
+    model = drv.ask_many(qs)
+    k = 0
+    for b in range(256):
+        rec = bytearray(stub.sdr_full_lin(0x99, 0x60, 'lin tie', 0, 1, signed=True))
+        rec[5 + 18] = b
+        s = pyipmi.sdr.SdrCommon.from_data(bytes(rec))
+        for sg, raw in raws:
+            try:
+                s.convert_sensor_raw_to_value(raw)
+                code = 'none'
+            except Exception as e:  # noqa
+                code = type(e).__name__
+            ctx.case(('lin', b, sg), nontrivial=True)
+            ctx.count('lin-tie:%s' % code)
+            if model[k] != code:
+                ctx.disagree('lin', {'kind': 'lin', 'byte': b, 'sign': sg}, model[k], code)
+            k += 1
+    spec = drv.ask_many(['speclin %d' % c for c in range(128)])
+    for c, line in enumerate(spec):
+        kind = 'formula' if c <= 0x0b else 'nonlinear' if c == 0x70 else 'oem' if 0x71 <= c <= 0x7f else 'reserved'
+        if line.split(' ')[:2] != [kind, '0' if kind == 'reserved' else '1']:
+            ctx.disagree('speclin', {'kind': 'lin', 'code': c}, line, kind)
 
 
 # ------------------------------------------------------------------------------------- entries
@@ -1911,14 +1990,27 @@ def _probe(ctx):
         'sensor_reads_today: full branch of sdr show / showall passes owner_lun, the others no LUN, default 0':
             reads == ('%s:1:D %s:2:D %s:1:O %s:2:D %s:1:O %s:2:D default=0' % tuple(
                 enc(c) for c in ('sdr list', 'sdr list', 'sdr show', 'sdr show', 'sdr showall', 'sdr showall'))),
-        'sensor_values_no_python_error: catchesArithmetic': bool(d['catch']) and all(
-            set(v.split('+')) & {'ArithmeticError', 'Exception', 'BaseException'} or
-            (set(v.split('+')) >= {'ValueError', 'ZeroDivisionError'}) for v in d['catch'].values()),
+        # evaluated twice: by the driver (Model.catchesConversion on Gen.Cli.handlers) and here on the class names
+        'sensor_values_no_python_error: catchesConversion (ValueError, ArithmeticError, DecodingError or wider)':
+            d['conv'] == '1' and bool(d['catch']) and all(_catches_conversion(v.split('+')) for v in d['catch'].values()),
     }
     ctx.extra['theorem_hypotheses_on_this_source'] = holds
+    py_conv = bool(d['catch']) and all(_catches_conversion(v.split('+')) for v in d['catch'].values())
+    if (d['conv'] == '1') != py_conv:
+        ctx.disagree('probe:catchesConversion', {}, d['conv'], '%s on %s' % (py_conv, d['catch']))
     for k, v in holds.items():
         ctx.count('hypothesis:%s:%s' % (k.split(':')[0], 'holds' if v else 'FAILS'))
     return d
+
+
+def _catches_conversion(classes):
+    """the except classes between convert_sensor_raw_to_value and main cover what the conversion of a reading /
+    threshold of a conforming full sensor record raises: ValueError (ln, log, sqrt), ZeroDivisionError (1/x),
+    pyipmi.errors.DecodingError (`lin` of a non-linear sensor, 70h..7Fh)"""
+    c = set(classes)
+    if c & {'Exception', 'BaseException'}:
+        return True
+    return 'ValueError' in c and bool(c & {'ArithmeticError', 'ZeroDivisionError'}) and 'DecodingError' in c
 
 
 def _family(sig):
@@ -1959,6 +2051,7 @@ def run(ctx):
     try:
         unresolved_names = _table_facts(ctx, snap)
         _probe(ctx)
+        _lin_tie(ctx)
         _ints(ctx)
         _lookup(ctx, snap)
         _ifopts(ctx)
